@@ -59,12 +59,29 @@ class Toks:
 
 
 # ---------------------------------------------------------------- the metamodel of the correspondence
+# declared defaults of the correspondence metamodel: (value denoted by the defaultValueLiteral, explicit default_value)
+DECLARED = {
+    'EString': (['s', 'none'], ['s', 'dflt']), 'EChar': (['s', 'x'], ['s', ' ']),
+    'EInt': (['i', 3], ['i', 5]), 'ELong': (['i', -3], ['i', 2 ** 40]), 'EBigInteger': (['i', 3], ['i', 10 ** 20]),
+    'EBoolean': (['b', True], ['b', True]), 'EDouble': (['f', '0.5'], ['f', '1.5']), 'EFloat': (['f', '-2.5'], ['f', 'inf']),
+    'EBigDecimal': (['D', '1.10'], ['D', '2.5']), 'EDate': (['d', '2020-01-02T03:04:05'], ['d', '2021-06-15T12:00:00+02:00']),
+    'Color': (['e', 'GREEN'], ['e', 'BLUE']),
+}
+SINGLE_KINDS = ['s', 'l', 'x', 'b']      # no declared default / literal / explicit value / both (the literal wins)
+
+
 def corr_mm():
     feats = []
     for t in G.DATATYPES + [G.ENUM['name']]:
         feats.append({'kind': 'attr', 'name': f'm_{t}', 'type': t, 'many': True, 'unique': False, 'iD': False})
         feats.append({'kind': 'attr', 'name': f'u_{t}', 'type': t, 'many': True, 'unique': True, 'iD': False})
         feats.append({'kind': 'attr', 'name': f's_{t}', 'type': t, 'many': False, 'unique': True, 'iD': False})
+        lit, exp = DECLARED[t]
+        feats.append({'kind': 'attr', 'name': f'l_{t}', 'type': t, 'many': False, 'unique': True, 'iD': False,
+                      'default_literal': G.literal_of(lit), 'default_literal_value': lit})
+        feats.append({'kind': 'attr', 'name': f'x_{t}', 'type': t, 'many': False, 'unique': True, 'iD': False, 'default': exp})
+        feats.append({'kind': 'attr', 'name': f'b_{t}', 'type': t, 'many': False, 'unique': True, 'iD': False, 'default': exp,
+                      'default_literal': G.literal_of(lit), 'default_literal_value': lit})
     feats.append({'kind': 'ref', 'name': 'kids', 'type': 'N', 'many': True, 'unique': True, 'containment': True, 'opposite': None})
     feats.append({'kind': 'ref', 'name': 'refs', 'type': 'N', 'many': True, 'unique': False, 'containment': False, 'opposite': None})
     feats.append({'kind': 'ref', 'name': 'one', 'type': 'N', 'many': False, 'unique': True, 'containment': False, 'opposite': None})
@@ -126,23 +143,36 @@ def corr_split(out, model, st, rng, n):
             out.diff(f'split({s!r}): model {got} CPython {s.split()}', {'string': [ord(c) for c in s]})
 
 
+def gen_single_value(rng, typ, mm, fd):
+    """a value for a single-valued attribute, biased to the values the skip-the-default decision turns on"""
+    r = rng.random()
+    if r < 0.5:
+        pool = [['n'], G.type_default(typ, mm)]
+        if fd.get('default') is not None:
+            pool.append(list(fd['default']))
+        if fd.get('default_literal') is not None:
+            pool.append(list(fd['default_literal_value']))
+        if typ == 'EFloat':
+            pool.append(['f', '-0.0'])
+        return rng.choice(pool)
+    return G.gen_value(rng, typ, mm)
+
+
 def corr_attributes(out, model, st, rng, built, mm, t_end):
     """one object, one attribute feature set: infoset written and values loaded vs the model"""
     types = G.DATATYPES + [G.ENUM['name']]
     forms = st['forms']
     while time.time() < t_end:
         typ = rng.choice(types)
-        kind = rng.choice(['m', 'm', 'u', 's'])
+        kind = rng.choice(['m', 'm', 'u', 's', 'l', 'x', 'b'])
         fname = f'{kind}_{typ}'
         opts = {'uuid': rng.random() < 0.2, 'serialize_default': rng.random() < 0.4, 'xmi_type': rng.random() < 0.15}
         feat = built.features[fname]
         et = feat.eType
-        if kind == 's':
-            v = ['n'] if rng.random() < 0.2 else G.gen_value(rng, typ, mm)
-            if rng.random() < 0.25 and typ in ('EInt', 'ELong', 'EBoolean', 'EDouble', 'EFloat', G.ENUM['name']):
-                v = {'EInt': ['i', 0], 'ELong': ['i', 0], 'EBoolean': ['b', False], 'EDouble': ['f', '0.0'],
-                     'EFloat': ['f', '-0.0'], G.ENUM['name']: ['e', 'RED']}[typ]        # the default itself
-            sets = [[fname, v]]
+        fd = G.find_feature(mm, 'A', fname)
+        single = kind in SINGLE_KINDS
+        if single:
+            sets = [[fname, gen_single_value(rng, typ, mm, fd)]]
         else:
             k = rng.choice([0, 1, 1, 2, 2, 3, 4, 6])
             vals = []
@@ -163,9 +193,20 @@ def corr_attributes(out, model, st, rng, built, mm, t_end):
             continue
         src = rt.inst[0]
         real = infoset_of(rt.data, fname)
-        if kind == 's':
+        if single:
             val = src.eGet(fname)
             dflt = feat.get_default_value()
+            # which default: literal over explicit value over the data type's (Model/XmiAttr.effective_default)
+            lit = None if fd.get('default_literal') is None else et.to_string(et.from_string(fd['default_literal']))
+            exp = None if fd.get('default') is None else et.to_string(built.pyvalue(fd['default'], typ))
+            tdv = built.pyvalue(G.type_default(typ, mm), typ)
+            td = None if tdv is None else et.to_string(tdv)
+            md_ = Toks(model.ask('xmiattr', [6, 0] + put_ostr(lit) + put_ostr(exp) + put_ostr(td) + put_ostr(None))).ostr()
+            want_d = None if dflt is None else et.to_string(dflt)
+            st['declared_defaults'] = st.get('declared_defaults', 0) + 1
+            if md_ != want_d:
+                out.diff(f'default of {fname}: model {md_!r} get_default_value() {want_d!r}', case)
+                continue
             sv = None if val is None else et.to_string(val)
             # the writer compares values; the model compares texts: values equal under == carry one text
             sd = None if dflt is None else (sv if (val is not None and val == dflt) else et.to_string(dflt))
@@ -187,7 +228,8 @@ def corr_attributes(out, model, st, rng, built, mm, t_end):
             want_loaded = [G.tag_value(None if s is None else et.from_string(s)) for s in dec]
             got_loaded = [G.tag_value(x) for x in rt.loaded.contents[0].eGet(fname)]
         st['attr_documents'] += 1
-        forms[f'{"single" if kind == "s" else "many"}:{enc[0]}'] = forms.get(f'{"single" if kind == "s" else "many"}:{enc[0]}', 0) + 1
+        fk = f'{"single" if single else "many"}:{enc[0]}'
+        forms[fk] = forms.get(fk, 0) + 1
         if enc != real:
             out.diff(f'infoset of {fname}: model {enc!r} pyecore wrote {real!r}', case)
         elif want_loaded != got_loaded:
